@@ -145,6 +145,20 @@ CHECKS["C20"] = dict(
     note="The driver only splits the message into rows; the judgement (what the lines of a file are, what a valid record is) is the TLA+ "
          "specification's. Quick tier validates 5000 distinct records (all family records + an even sample of mutants).", design="5 (C20)")
 
+CHECKS["C13"] = dict(
+    category="model_checking",
+    technique="golden jet signature table + closed-form jet meanings in TLA+ (bit-vector arithmetic), TLC-generated one-call programs replayed; model invariant CompileCorrect",
+    text="All 471 jets: documented arity / grouping / result type accepted (reserved ones rejected). 304 closed-form jets: boundary and "
+         "asymmetric arguments, result compared with the TLA+ meaning through Observe.",
+    note=PROG_NOTE + " The golden table is the oracle for signatures (see DESIGN.md C13 oracle note).", design="5 (C13)")
+CHECKS["C19"] = dict(
+    category="model_checking",
+    technique="TLA+ model of hash-map iteration as nondeterministic permutations (VIEW hides the choice) + byte comparison across repeated compilations, 8/32 processes and simc",
+    text="Model: marker assignment, symbol set and Ok/Err are independent of iteration order. Code: examples + generated programs x "
+         "--debug: one encoding / CMR across in-process repeats and separately started processes; simc prints base64 of exactly the "
+         "library's bytes, non-zero exit with message iff the library errs.",
+    note="Cross-process determinism is an observation of the real binaries; the number of processes bounds it.", design="5 (C19)")
+
 PENDING = {}
 
 ALL = ["C%02d" % i for i in range(1, 21)]
@@ -183,7 +197,7 @@ def main():
                                                                  "technique applies (see DESIGN.md section 5) - not claimed until built")})
     man = {
         "version": 1,
-        "setup_cmd": "cd /verif/harness && cargo build --release --offline",
+        "setup_cmd": "cd /verif/harness && cargo build --release --offline && cargo build --release --offline --manifest-path /repo/Cargo.toml --bin simc --target-dir /verif/harness/target/simc_build",
         "hooks": {
             "guard": "verif (cargo feature of crate simfony)",
             "enable": "the harness depends on simfony with features [\"serde\", \"verif\"]; cargo build --release --offline in /verif/harness",
